@@ -74,6 +74,34 @@ impl<T: El> Interp<T> {
 
   fn try_exec(&mut self, t: &[&str]) -> Option<Out> {
     let op = *t.first()?;
+    if op == "from_str" {
+      // MiniVec::<u8>::from(&str) of n bytes; the vector is checked and dropped inside the operation
+      if t.len() != 2 {
+        return None;
+      }
+      let n = crate::script::num(t[1])?;
+      if n > (1 << 20) {
+        return None;
+      }
+      let s = "a".repeat(n);
+      let r = scoped(|| {
+        let v = minivec::MiniVec::<u8>::from(&s[..]);
+        (v.len(), v.iter().all(|b| *b == b'a'))
+      });
+      return Some(match r {
+        Some((len, good)) => {
+          tl!("= {} {}", len, if good { "same" } else { "differs" });
+          if len != n || !good {
+            tl!("O vec-mismatch from_str len={} want={}", len, n);
+          }
+          Out::Skip
+        }
+        None => {
+          tl!("= panic");
+          Out::Panic
+        }
+      });
+    }
     if let Some(o) = self.exec_ctor(op, t) {
       return o;
     }
